@@ -197,6 +197,7 @@ def run(rep: Report, ctx: Any) -> str:
     check_weak_mode(rep, ctx, "R09.4", ix.func("PythonIdentifier.__new__"), MODE_PARAM, leak)
     sources = check_pass_sources(rep, ctx, "R09.5")
     check_no_silent_loss(rep, ctx, "R09.6", sources)
+    check_package_directory(rep, ctx, "R09.7")
     return LEVEL
 
 
@@ -1331,3 +1332,137 @@ def check_no_silent_loss(rep: Report, ctx: Any, rid: str, sources: set[str]) -> 
     rep.floor("already_collected_decisions", n_dec, 1)
     rep.not_decided.append(f"{rid}: items left out by a filter that is not an `if` statement of the filling loop or of the generator it iterates "
                            "(a comprehension condition, filter()); that the comparison made with the identity is an equality")
+
+
+# ---- R09.7: the directory that is the package carries the package name -----------------------------------------------------------
+def _held_test(lc: Locals, t: ast.expr, params: set[str]) -> "ast.expr | None":
+    """the test whose outcome the local t holds (bound once, to something that is not just another name)"""
+    if isinstance(t, ast.Name) and t.id not in params:
+        ds = lc.defs.get(t.id, [])
+        if len(ds) == 1 and ds[0][0] == "assign" and ds[0][2] is not None and not isinstance(ds[0][2], ast.Name):
+            return ds[0][2]
+    return None
+
+
+def _atoms_of(t: ast.expr, out: dict[str, None], lc: Locals, params: set[str], depth: int = 3) -> None:
+    held = _held_test(lc, t, params) if depth > 0 else None
+    if isinstance(t, ast.BoolOp):
+        for v in t.values:
+            _atoms_of(v, out, lc, params, depth)
+    elif isinstance(t, ast.UnaryOp) and isinstance(t.op, ast.Not):
+        _atoms_of(t.operand, out, lc, params, depth)
+    elif held is not None:
+        _atoms_of(held, out, lc, params, depth - 1)
+    else:
+        out.setdefault(_atom(t)[0])
+
+
+def _atom(t: ast.expr) -> tuple[str, bool]:
+    """(text of the positive form of a test, whether t is that form): `a != b` is `a == b` negated, `a is not b` is `a is b` negated"""
+    if isinstance(t, ast.Compare) and len(t.ops) == 1 and isinstance(t.ops[0], (ast.NotEq, ast.IsNot, ast.NotIn)):
+        pos = {ast.NotEq: ast.Eq, ast.IsNot: ast.Is, ast.NotIn: ast.In}[type(t.ops[0])]()
+        return norm(ast.Compare(left=t.left, ops=[pos], comparators=t.comparators)), False
+    return norm(t), True
+
+
+def check_package_directory(rep: Report, ctx: Any, rid: str) -> None:
+    """The package is imported under the name of its directory.  The generator prints one name as the package's import name
+    (`package_name`: README, pyproject / setup `packages`) - so wherever it chooses the directory itself, that directory's last
+    component is that name, whatever the layout (the package below the project directory, or the project directory being the
+    package)."""
+    from .c19loc import MISSING, Placement
+
+    ix = ctx.py
+    rep.rule(rid, "the directory that is the importable package (Project.package_dir) is named by the package name: for every way the "
+                  "tests of the constructor can come out, each value package_dir ends up with - read through project_dir where it is "
+                  "project_dir itself - is either the location the user named "
+                  "(Config.output_path, R19.5) or a path whose last component is `self.package_name`, the name the templates print "
+                  "as the import name.  Tests are decided per truth assignment of their atoms, however they are written")
+    proj = ix.cls("Project")
+    init = proj.methods.get("__init__")
+    rep.require(init, "Project.__init__")
+    atoms: dict[str, None] = {}
+    lc_init = Locals(init.node)
+    params_init = {a.arg for a in init.params}
+    for n in ast.walk(init.node):
+        if isinstance(n, (ast.If, ast.IfExp, ast.While)):
+            _atoms_of(n.test, atoms, lc_init, params_init)
+    names = sorted(atoms)
+    rep.require(len(names) <= 10, "at most ten distinct tests in Project.__init__")
+
+    class Under(Placement):
+        """Placement with the tests that are not about the field decided by a truth assignment"""
+        sigma: dict[str, bool] = {}
+
+        def decide(self, f: Any, given: frozenset) -> Any:
+            base = super().decide(f, given)
+
+            def ev(t: ast.expr) -> "bool | None":
+                v = base(t)
+                if v is not None:
+                    return v
+                if isinstance(t, ast.UnaryOp) and isinstance(t.op, ast.Not):
+                    w = ev(t.operand)
+                    return None if w is None else not w
+                if isinstance(t, ast.BoolOp):
+                    xs = [ev(x) for x in t.values]
+                    if isinstance(t.op, ast.And):
+                        return False if any(x is False for x in xs) else (True if all(x is True for x in xs) else None)
+                    return True if any(x is True for x in xs) else (False if all(x is False for x in xs) else None)
+                held = _held_test(lc_init, t, params_init) if f is init else None
+                if held is not None:
+                    return ev(held)
+                text, positive = _atom(t)
+                if f is init and text in self.sigma:
+                    return self.sigma[text] == positive
+                return None
+
+            return ev
+
+    me = init.params[0].arg if init.params else "self"
+
+    def is_self_attr(x: Any, attr: str) -> bool:
+        return isinstance(x, ast.Attribute) and x.attr == attr and isinstance(x.value, ast.Name) and x.value.id == me
+
+    def last_component(x: Any) -> Any:
+        if isinstance(x, ast.BinOp) and isinstance(x.op, ast.Div):
+            return x.right
+        if isinstance(x, ast.Call) and isinstance(x.func, ast.Attribute) and x.func.attr == "joinpath" and x.args and not x.keywords:
+            return x.args[-1]
+        return None
+
+    bad: dict[str, tuple[Any, str]] = {}
+    n_vals = 0
+    for bits in range(1 << len(names)):
+        sigma = {a: bool(bits >> i & 1) for i, a in enumerate(names)}
+        for decided in (True, False):  # the user named a location / did not
+            pl = Under(ix, "output_path", decided=decided)
+            pl.sigma = sigma
+            vals = pl.final(init, "package_dir")
+            work = []
+            for g, gv, x in vals:
+                if g is init and is_self_attr(x, "project_dir"):
+                    work += pl.final(init, "project_dir")
+                else:
+                    work.append((g, gv, x))
+            for g, gv, x in work:
+                n_vals += 1
+                if x is MISSING:
+                    continue
+                if decided and pl.denotes(g, gv, x):
+                    continue
+                comp = last_component(x)
+                if comp is not None and g is init and all(is_self_attr(c_, "package_name") for _g, _gv, c_ in pl.values(g, gv, comp)):
+                    continue
+                if not decided and isinstance(x, ast.Attribute) and x.attr == "output_path":
+                    continue  # (taken when it is set; the assignment does not say so)
+                text = norm(x)[:80]
+                bad.setdefault(text, (x, ", ".join(f"{'' if v else 'not '}[{a[:40]}]" for a, v in sigma.items())))
+    rep.floor("package_dir_values", n_vals, 2)
+    where_ = f"{init.module.rel}:{init.node.lineno}"
+    rep.check(not bad, rid, "Project.package_dir::named-by-package_name",
+              "the directory that is the importable package can be a directory the generator names otherwise than by package_name: "
+              f"{[f'`{t_}` when {w}' for t_, (_x, w) in sorted(bad.items())][:3]} - `import <package_name>` (README, pyproject) does not "
+              "find it, and a project name is not an identifier",
+              where=next((f"{init.module.rel}:{x.lineno}" for x, _w in bad.values() if hasattr(x, "lineno")), where_),
+              lhs=sorted(bad) or "every value", rhs="config.output_path | <dir> / self.package_name")
